@@ -32,7 +32,7 @@ def drive(jobs, fn=_worker, procs=16):
 
 
 def plan(tier, rng, kinds):
-    n = 900 if tier == 'quick' else 7000
+    n = 900 if tier == 'quick' else 10000
     maxw, maxh = (8, 8) if tier == 'quick' else (12, 12)
     jobs = []
     for i in range(n):
@@ -219,6 +219,12 @@ def run_table_check(prop, tier, seed, replay, checker, layers, soft_codes, kinds
             gen_error = 'generated tables: %r' % (e,)
     proofs = common.build_proofs(prop, extra_targets)
     known = {e['key']: e for e in common.known_findings(prop)}
+    chk_proc = None
+    if tier == 'thorough' and not replay and proofs['ok']:
+        # independent re-check of the compiled proofs (and their whole dependency cone) by coqchk, in the background
+        import subprocess
+        chk_proc = subprocess.Popen('timeout 1500 coqchk -silent -o -R theories "" %s' % prop, shell=True, cwd=common.COQ,
+                                    stdout=subprocess.PIPE, stderr=subprocess.STDOUT, text=True)
     corpus = []
     for f in sorted((common.ROOT / 'corpus' / prop).glob('*.json')):
         corpus.append(json.load(open(f))['case'])
@@ -300,6 +306,14 @@ def run_table_check(prop, tier, seed, replay, checker, layers, soft_codes, kinds
     if gen_error:
         ex['errors'] = list(ex['errors']) + [gen_error]
     violations += ex['violations']; errors += ex['errors']; known_seen += ex.get('known_seen', [])
+    coqchk_cov = {}
+    if chk_proc is not None:
+        out = chk_proc.communicate()[0]
+        summ = out[out.find('CONTEXT SUMMARY'):] if 'CONTEXT SUMMARY' in out else out[-600:]
+        coqchk_cov = dict(coqchk_cmd='cd coq && coqchk -silent -o -R theories "" %s' % prop, coqchk_exit=chk_proc.returncode,
+                          coqchk_summary=' '.join(summ.split()))
+        if chk_proc.returncode != 0 or 'Axioms: <none>' not in ' '.join(summ.split()):
+            errors.append('coqchk: ' + ' '.join(summ.split())[:400])
     # model-level / abstraction-level trouble: look for a concrete failing input with the direct Python reference
     soft_msgs = []
     found_by_oracle = False
@@ -330,7 +344,7 @@ def run_table_check(prop, tier, seed, replay, checker, layers, soft_codes, kinds
         samples=[dict(initial=c['init_xml'][:400], steps=c['steps'][:2]) for c, r in results[len(corpus):len(corpus) + 3]],
         corpus_cases=len(corpus), fidelity_divergences=fid, fidelity_ratio=round(1 - fid / max(1, len(results)), 4),
         modelled=modelled, exhaustive=False, known_findings_reobserved=len(known_seen))
-    cov.update(histogram(results)); cov.update(sweep_cov); cov.update(ex['coverage'])
+    cov.update(histogram(results)); cov.update(sweep_cov); cov.update(ex['coverage']); cov.update(coqchk_cov)
     if fid:
         print('NOTE: %d histories where only the exact run-length shape differs from the model (fidelity, not an alarm)' % fid)
     return common.finish(prop, tier, seed, proofs, cov, violations, known_seen, t0, assumptions=list(assumptions))
